@@ -2664,3 +2664,82 @@ end linstore
 
 -- non-vacuity: distinct names, grids without repeated values
 example : (["q0", "q1"] : List String).Nodup ∧ ∀ g ∈ ([[-2, -1, 0], [5]] : List (List ℤ)), g.Nodup := by decide
+
+/-! ## Irregular grid objects: queries and changes interleaved -/
+
+section iobjhist
+variable {F : Type} [Field F] [LinearOrder F] [IsStrictOrderedRing F]
+
+namespace C15
+
+theorem IGObj.trace_append (o : IGObj F) (ops : List (IGOp F)) (op : IGOp F) :
+    o.trace (ops ++ [op]) = o.trace ops ++ [((o.after ops).step op).2] := by
+  induction ops generalizing o with
+  | nil => simp [IGObj.trace, IGObj.after]
+  | cons a rest ih => simp [IGObj.trace, IGObj.after, ih]
+
+/-- one operation keeps the grid strictly increasing -/
+theorem IGObj.step_sorted (o : IGObj F) (h : o.grid.Pairwise (· < ·)) (op : IGOp F) :
+    (o.step op).1.grid.Pairwise (· < ·) := by
+  cases op with
+  | extra =>
+    unfold IGObj.step
+    cases hx : irrAddExtra o.grid with
+    | none => simpa using h
+    | some g' =>
+      simp only []
+      -- at least two points, otherwise `irrAddExtra` is `none`
+      have h2 : 2 ≤ o.grid.length := by
+        unfold irrAddExtra at hx
+        match hg : o.grid with
+        | [] => rw [hg] at hx; simp at hx
+        | [_] => rw [hg] at hx; simp at hx
+        | _ :: _ :: _ => simp
+      obtain ⟨g'', hg'', hs, _, _⟩ := c15_irregular_extra_bins o.grid h h2
+      rw [hx] at hg''
+      simp only [Option.some.injEq] at hg''
+      rw [hg'']; exact hs
+  | setGrid arr =>
+    unfold IGObj.step
+    cases hm : mkIrr arr with
+    | none => simp only [hm]; exact h
+    | some g' =>
+      simp only [hm]
+      exact ((c15_irregular_ctor_sorted arr).1 g' hm).2
+  | copy => exact h
+  | nearest v => exact h
+  | lower v => exact h
+  | upper v => exact h
+
+theorem IGObj.after_sorted (o : IGObj F) (h : o.grid.Pairwise (· < ·)) (ops : List (IGOp F)) :
+    (o.after ops).grid.Pairwise (· < ·) := by
+  induction ops generalizing o with
+  | nil => exact h
+  | cons op rest ih => exact ih _ (IGObj.step_sorted o h op)
+
+end C15
+
+/-- **irregular grid object, any history** (query, extend / assign / copy, query …): the grid stays
+strictly increasing whatever is done (refused changes leave it alone), and a query at *any* point
+of the history answers for the grid as it is *then* — nearest member of the current grid, greatest
+member `≤ v`, least member `> v` (`c15_irregular_nearest/lower/upper` apply to that grid).  The
+object carries nothing but the grid: no array computed for an earlier grid can answer for a later
+one. -/
+theorem c15_irregular_object_history (o : IGObj F) (h : o.grid.Pairwise (· < ·)) (ops : List (IGOp F))
+    (v : F) :
+    let g := (o.after ops).grid
+    g.Pairwise (· < ·) ∧
+    (o.trace (ops ++ [IGOp.nearest v])).getLast? = some (IGOut.answer (irrNearest g v)) ∧
+    (o.trace (ops ++ [IGOp.lower v])).getLast? = some (IGOut.answer (irrLowerC g v)) ∧
+    (o.trace (ops ++ [IGOp.upper v])).getLast? = some (IGOut.answer (irrUpper g v)) ∧
+    (g ≠ [] → ∃ a, irrNearest g v = some a ∧ a ∈ g ∧ ∀ b ∈ g, |a - v| ≤ |b - v|) := by
+  intro g
+  have hs := C15.IGObj.after_sorted o h ops
+  refine ⟨hs, ?_, ?_, ?_, fun hne => c15_irregular_nearest g hs hne v⟩ <;>
+    rw [C15.IGObj.trace_append] <;> simp [IGObj.step, g]
+
+end iobjhist
+
+example : (⟨[1, 2, 4]⟩ : IGObj ℤ).trace [IGOp.nearest 3, IGOp.extra, IGOp.nearest 5, IGOp.setGrid [2, 1], IGOp.upper 6] =
+    [IGOut.answer (some 2), IGOut.state [0, 1, 2, 4, 6], IGOut.answer (some 4), IGOut.raised, IGOut.answer none] := by
+  decide
